@@ -28,6 +28,10 @@ def run(rep, tier, seed, only=None):
         contract.standard_run(rep, "C07", MODULES, tier, seed, only)
     from contracts import c07
     c07.frame_obligations(rep, only)
+    rep.explanation = ("One obligation = one named proof obligation: a solver query generated by symbolic execution of the real "
+                       "CondSRF / Krige / Field methods (symrun), or one write-set/read-set fact over the real ast (dataflow). "
+                       "Coherence obligations compare the whole view after 'mutator; call' with the view of a freshly built "
+                       "object; BOUNDED = conditioning formula / data honouring on 1-2 targets and <= 2 conditioning points.")
 
 
 def replay(path):
